@@ -145,6 +145,8 @@ func c18(w *core.World, r *core.Report) {
 	// the cluster only if both are Redis Cluster's HASH_SLOT. The slot-function
 	// rules of C11 (R11.1-R11.5) are therefore obligations of C18 as well.
 	c11(w, r)
+	r.Rule("R13.6", "a source transaction the filters emptied is skipped, not handed to the unit builder (which refuses an empty unit and stops the replay on a transaction that spans no slot at all) (shared with C13)", 4)
+	ruleTxnBuffer(w, r)
 }
 
 func extractOf(call ssa.Value, idx int) ssa.Value {
